@@ -390,6 +390,19 @@ func runC18(w *World, r *Report) {
 		r.ok("guarded-storage-stays-inside", "none", "-", "no function returns the storage of a written slice / map field")
 	}
 
+	// memory that goes back into a pool is not handed out
+	r.rule("pooled-memory-stays-inside", "no function returns a value taken from a sync.Pool, or memory that value owns (the result of a method on it, a reslice), when it also puts the value back: the pool hands the object to the next Get on any goroutine, without any lock of the repository in between", 0)
+	nPool := 0
+	for _, fn := range w.RepoFuncs() {
+		for _, d := range pooledMemoryLeaks(w, fn) {
+			nPool++
+			r.bad("pooled-memory-stays-inside", shortFn(fn), w.Pos(fn.Pos()), "pooled memory is copied before it leaves the function that returns it to the pool", d)
+		}
+	}
+	if nPool == 0 {
+		r.ok("pooled-memory-stays-inside", "none", "-", "no function hands out memory of an object it returns to a sync.Pool")
+	}
+
 	// goroutine-captured variables
 	r.rule("go-closure-captures", "a variable captured by reference by a goroutine started from an operation is not stored to by the spawner after the go statement nor by the goroutine", 5)
 	for _, fn := range fnsSorted {
@@ -573,4 +586,140 @@ func loadedValueWritten(u *ssa.UnOp) (bool, string) {
 		}
 	}
 	return false, "load"
+}
+
+// pooledMemoryLeaks: a value taken from a sync.Pool and put back by the same function must not be handed out of it — not
+// itself, and not memory it owns (buf.Bytes(), a reslice). After Put the next Get, on any goroutine, gets the same object
+// and writes into the bytes the first caller is still reading.
+func pooledMemoryLeaks(w *World, fn *ssa.Function) []string {
+	var pooled []ssa.Value
+	isPoolCall := func(c ssa.CallInstruction, name string) bool {
+		cal := c.Common().StaticCallee()
+		return cal != nil && cal.Pkg != nil && cal.Pkg.Pkg.Path() == "sync" && cal.Name() == name && cal.Signature.Recv() != nil && strings.HasSuffix(cal.Signature.Recv().Type().String(), "sync.Pool")
+	}
+	var puts []ssa.Value
+	instrsOf(fn, func(in ssa.Instruction) {
+		c, ok := in.(ssa.CallInstruction)
+		if !ok {
+			return
+		}
+		if isPoolCall(c, "Get") {
+			if cv, isVal := c.(ssa.Value); isVal && cv.Referrers() != nil {
+				for _, ref := range *cv.Referrers() {
+					if ta, isTA := ref.(*ssa.TypeAssert); isTA {
+						if ta.CommaOk {
+							for _, r2 := range *ta.Referrers() {
+								if ex, isEx := r2.(*ssa.Extract); isEx && ex.Index == 0 {
+									pooled = append(pooled, ex)
+								}
+							}
+						} else {
+							pooled = append(pooled, ta)
+						}
+					}
+				}
+				pooled = append(pooled, cv)
+			}
+		}
+		if isPoolCall(c, "Put") && len(c.Common().Args) >= 2 {
+			puts = append(puts, c.Common().Args[1])
+		}
+	})
+	if len(pooled) == 0 || len(puts) == 0 {
+		return nil
+	}
+	isPooled := func(v ssa.Value) bool {
+		for _, p := range pooled {
+			if v == p {
+				return true
+			}
+		}
+		return false
+	}
+	putBack := false
+	for _, p := range puts {
+		x := p
+		if mi, ok := x.(*ssa.MakeInterface); ok {
+			x = mi.X
+		}
+		if isPooled(x) {
+			putBack = true
+		}
+	}
+	if !putBack {
+		return nil
+	}
+	refLike := func(t types.Type) bool {
+		switch t.Underlying().(type) {
+		case *types.Slice, *types.Pointer, *types.Map, *types.Interface:
+			return true
+		}
+		return false
+	}
+	seen := map[ssa.Value]bool{}
+	var owned func(v ssa.Value) bool
+	owned = func(v ssa.Value) bool {
+		if v == nil || seen[v] {
+			return false
+		}
+		seen[v] = true
+		if isPooled(v) {
+			return true
+		}
+		switch x := v.(type) {
+		case *ssa.Slice:
+			return owned(x.X)
+		case *ssa.ChangeType:
+			return owned(x.X)
+		case *ssa.MakeInterface:
+			return owned(x.X)
+		case *ssa.Phi:
+			for _, e := range x.Edges {
+				if owned(e) {
+					return true
+				}
+			}
+		case *ssa.Call:
+			if refLike(x.Type()) && len(x.Call.Args) > 0 && !x.Call.IsInvoke() && owned(x.Call.Args[0]) {
+				return true
+			}
+			// the Append… family (binary.LittleEndian.AppendUint64, strconv.AppendInt, …) extends the slice it is handed
+			if cal := x.Call.StaticCallee(); cal != nil && strings.HasPrefix(cal.Name(), "Append") && refLike(x.Type()) {
+				for _, a := range x.Call.Args {
+					if _, isSlice := a.Type().Underlying().(*types.Slice); isSlice && owned(a) {
+						return true
+					}
+				}
+			}
+		case *ssa.FieldAddr:
+			return owned(x.X)
+		case *ssa.IndexAddr:
+			return owned(x.X)
+		case *ssa.UnOp:
+			if x.Op == token.MUL {
+				if al, ok := x.X.(*ssa.Alloc); ok {
+					_ = al
+					for _, sv := range reachingStores(x).vals {
+						if owned(sv) {
+							return true
+						}
+					}
+					return false
+				}
+				if refLike(x.Type()) {
+					return owned(x.X)
+				}
+			}
+		}
+		return false
+	}
+	var out []string
+	for _, ret := range returnsOf(fn) {
+		for _, res := range ret.Results {
+			if refLike(res.Type()) && owned(res) {
+				out = append(out, fmt.Sprintf("%s returns at %s memory owned by an object it has put back into a sync.Pool: the next Get, on any goroutine, hands the same object out and its writes land in the bytes the caller is still reading", shortFn(fn), lineOf(w, ret)))
+			}
+		}
+	}
+	return out
 }
